@@ -69,6 +69,12 @@ class KwOnly:
     def __init__(self, a, *, b=2):
         self.a = a
         self.b = b
+@dataclasses.dataclass
+class IVar:
+    a: int
+    scale: dataclasses.InitVar[int] = 1
+    def __post_init__(self, scale):
+        self.a = self.a * scale
 class InitHints:
     def __init__(self, a: "int", b: "decimal.Decimal" = None):
         self.a = a
@@ -85,7 +91,8 @@ EXT_NAMES = {
     "T_free": "T_free", "T_bound": "T_bound", "T_constr": "T_constr",
     "Callable": "typing.Callable[[int], str]", "CallableBare": "typing.Callable", "CallableEll": "typing.Callable[..., int]",
     "type[int]": "type[int]", "typing.Type": "typing.Type[int]", "Box": "Box", "Box[int]": "Box[int]", "Box[T]": "Box[T_free]",
-    "NoHints": "NoHints", "VarHints": "VarHints", "KwOnly": "KwOnly", "Empty": "Empty", "WithAny": "WithAny", "InitHints": "InitHints",
+    "NoHints": "NoHints", "VarHints": "VarHints", "KwOnly": "KwOnly", "IVar": "IVar", "Annotated[int]": "typing.Annotated[int, 'meta']",
+    "Annotated[list[date]]": "typing.Annotated[list[datetime.date], 'meta']", "Empty": "Empty", "WithAny": "WithAny", "InitHints": "InitHints",
 }
 COLL_SPELL = {
     ("list", "builtin"): "list[{a}]", ("list", "typing"): "typing.List[{a}]",
@@ -177,6 +184,10 @@ class Env:
             return f"typing.Final[{self.render(t['a'], home)}]"
         if k == "classvar":
             return f"typing.ClassVar[{self.render(t['a'], home)}]"
+        if k == "annotated":
+            return f"typing.Annotated[{self.render(t['a'], home)}, 'meta']"
+        if k == "noinit":           # a field option, not a type constructor: see _class_src
+            return self.render(t["a"], home)
         if k == "ext":
             return EXT_NAMES[t["n"]]
         if k == "fieldof":
@@ -234,6 +245,9 @@ class Env:
             lines.append(f"@dataclasses.dataclass({opts})")
             lines.append(f"class {name}{bases}:")
             for fn, src, has_d, T in fields:
+                if T["k"] == "noinit":
+                    lines.append(f"    {fn}: {src} = dataclasses.field(init=False, default={dsrc[fn]})")
+                    continue
                 lines.append(f"    {fn}: {src}" + (f" = {dsrc[fn]}" if has_d else ""))
             if fl == "dc_call":         # instances can be called: still a structured class
                 lines.append("    def __call__(self, *a):\n        return a")
@@ -442,7 +456,7 @@ def hashable_term(t) -> bool:
         return t["c"] in ("frozenset", "tuple") and hashable_term(t["a"])
     if k == "union":
         return all(hashable_term(x) for x in t["xs"])
-    if k in ("newtype", "alias", "salias", "final", "classvar"):
+    if k in ("newtype", "alias", "salias", "final", "classvar", "noinit", "annotated"):
         return hashable_term(t["a"])
     return False
 
@@ -479,7 +493,7 @@ def values(t: dict, env: Env, rng, n: int = 4, depth: int = 0) -> list:
         return [E[m] for m in ENUM_MEMBERS[t["e"]]]
     if k == "lit":
         return [lit_value(v) for v in t["vs"]]
-    if k in ("newtype", "alias", "salias", "final", "classvar"):
+    if k in ("newtype", "alias", "salias", "final", "classvar", "noinit", "annotated"):
         return values(t["a"], env, rng, n, depth)
     if k == "srcname":
         return values(t["as"], env, rng, n, depth)
@@ -533,7 +547,7 @@ def class_values(name, env: Env, rng, n, depth):
         # cut recursion: only possible if every field can be omitted / None
         fields = {}
         for fn, T, has_d, *_ in d["fields"]:
-            if T["k"] == "classvar":
+            if T["k"] in ("classvar", "noinit"):       # no constructor parameter
                 continue
             if has_d or _accepts_none(T):
                 if d["flavour"].startswith("typeddict"):
@@ -548,7 +562,7 @@ def class_values(name, env: Env, rng, n, depth):
         return [_construct(C, d, fields)]
     cols = {}
     for fn, T, has_d, *_ in d["fields"]:
-        if T["k"] == "classvar":
+        if T["k"] in ("classvar", "noinit"):           # no constructor parameter: the instance keeps the default
             continue
         vs = values(T, env, rng, 2, depth + 1)
         if not vs:
